@@ -51,6 +51,10 @@ def flatten(t, guard=T.TRUE, loops=(), stop_at_lphi=False) -> list:
             col, row = None, None
             if tag(tgt) == 'cell' and tgt[1] == ('it',):
                 col, row = tgt[3], tgt[2]
+                if row[0] == 'lab' and tag(row[1]) == 'lv' and row[1][2] == 'idx':
+                    # the tables are created row by row under the labels 0, 1, 2, ... of an enumeration
+                    # (_setup_sligrolay_pdf): addressed by that enumeration index, label and position coincide
+                    row = ('pos', row[1])
             elif tag(tgt) == 'col' and tgt[1] == ('it',):
                 col = tgt[2]
             elif tag(tgt) == 'col' and tag(tgt[1]) == 'mask' and tgt[1][1] == ('it',):
